@@ -32,7 +32,7 @@ def extra_builds(tier):
 def bounds(tier):
     return {"cipher_tree_depth": 4 if tier == "thorough" else 3, "cipher_graph_bytes_per_seek": 257,
             "cipher_graph_seeks": 2 if tier == "thorough" else 1, "drg_tree_depth": 3,
-            "drg_letters": 58 if tier == "thorough" else 32}
+            "drg_letters": 58 if tier == "thorough" else 32, "drg_every_size": "0..=140 at cursor 0 and 4, rounds 8/12/20"}
 
 
 def validate_models(tier):
